@@ -15,12 +15,8 @@ def stop_plumbing(ctx, rule):
     from . import c02 as _c02t
     _c02t.timespan_parse(ctx, rule)
     # --stop-signal is parsed by Signal::from_str, which must hand the text as written to both name tables
-    fs6 = ctx.anchor_one(rule, "<Signal as FromStr>::from_str", [x for x in ctx.facts.fns_matching(r"watchexec_signals::Signal as core::str::traits::FromStr>::from_str$")])
-    top6 = pathx.desc(thir.peel(thir.root(fs6)))
-    inner6 = [pathx.desc(thir.peel(thir.root(c))) for c in ctx.facts.children(fs6) if c.kind == "closure"]
-    ctx.require(top6 == "Result::or_else(Signal::from_windows_str(s), closure)" and any(d.startswith("Result::map_err(Signal::from_unix_str(^s)") for d in inner6), rule, "stop-signal-parse",
-                "the stop signal's name is parsed as written (control names first, then unix names)", fs6.loc(fs6.line), detail=top6,
-                fail="Signal::from_str rewrites the name before looking it up (%s): `SIGSTOP` can turn into the control name STOP = ForceStop, and the graceful stop kills at once" % top6)
+    from . import c19 as _c19f
+    _c19f.fromstr_table(ctx, rule)
     mk = ctx.anchor_fn(rule, "watchexec_cli::config::make_config")
     lets = {}
     for s_ in thir.walk(thir.root(mk)):
